@@ -212,7 +212,7 @@ bool observe(void *c, hexsim::Processor &p) {
 struct C12View {
   std::string image, file, input, progName;
   unsigned tailCut = 0;
-  bool trace = false; uint64_t maxCycles = 0; bool hasMax = false;
+  bool trace = false; uint64_t maxCycles = 0; bool hasMax = false; bool dump = false;
   std::vector<Host> hosts; std::vector<int> toolLevel;   // 0 library, 1 hexsim main, 2 xrun main
   std::string xsource;
   std::string simin[8]; bool siminPresent[8] = {};
@@ -338,6 +338,7 @@ public:
     {
       Json op = Json::object(); op["op"] = "options";
       op["trace"] = r.chance(1, 3);
+      if (r.chance(1, 6)) op["dump"] = true;
       if (r.chance(1, 2)) op["max_cycles"] = (unsigned long long)(r.chance(1, 3) ? r.below(4) : r.below(400));   // resolved against the run length at execution
       ops.push(op);
     }
@@ -479,7 +480,7 @@ public:
         if (op.has("xsource")) v.xsource = op.getStr("xsource");
         v.progName = op.getStr("corpus", op.getStr("from_corpus", "generated"));
       } else if (k == "input") v.input = sim::fromHex(op.getStr("hex"));
-      else if (k == "options") { v.trace = op.getBool("trace"); if (op.has("max_cycles")) { v.hasMax = true; v.maxCycles = op.getU64("max_cycles"); } }
+      else if (k == "options") { v.trace = op.getBool("trace"); v.dump = op.getBool("dump"); if (op.has("max_cycles")) { v.hasMax = true; v.maxCycles = op.getU64("max_cycles"); } }
       else if (k == "host") { v.hosts.push_back(hostFrom(op)); std::string l = op.getStr("level", "lib"); v.toolLevel.push_back(l == "lib" ? 0 : l == "xrun" ? 2 : 1); }
       else if (k == "simin") { unsigned i = (unsigned)(op.getU64("idx") & 7); v.siminPresent[i] = true; v.simin[i] = sim::fromHex(op.getStr("hex")); }
     }
@@ -541,7 +542,7 @@ public:
   }
 
   // Tool level: hexsim's (or xrun's) own main on a dirtied stack.
-  RunRes runTool(const C12View &v, const Host &h, bool trace, uint64_t maxCycles, bool viaXrun, const std::string &xsrc) {
+  RunRes runTool(const C12View &v, const Host &h, bool trace, uint64_t maxCycles, bool viaXrun, const std::string &xsrc, bool dump = false) {
     RunRes res;
     stage(v);
     if (viaXrun) sim::fs::put("prog.x", xsrc);
@@ -549,6 +550,7 @@ public:
     std::vector<std::string> argv;
     if (viaXrun) argv = {"xrun", "prog.x"}; else argv = {"hexsim", "img.bin"};
     if (trace) argv.push_back("-t");
+    if (dump) argv.push_back("--dump");
     if (maxCycles) { argv.push_back("--max-cycles"); argv.push_back(std::to_string(maxCycles)); }
     std::vector<const char *> av;
     for (auto &a : argv) av.push_back(a.c_str());
@@ -671,6 +673,23 @@ public:
           }
         }
         o.stateKeys.push_back("c12 cut=" + std::string(k < 3 ? "early" : k + 3 > steps ? "late" : "mid"));
+      }
+    }
+    if (o.violated) return;
+
+    // (d) --dump lists the loaded words and runs nothing: the same text and status in every host state
+    // (it prints one word beyond the image, which must read as zero like any uncovered word).
+    if (v.dump) {
+      std::vector<RunRes> dumps;
+      for (size_t h = 0; h < hosts.size() && !o.violated; h++) {
+        RunRes r = runTool(v, hosts[h], false, 0, false, "", true);
+        sim::g_log.evs("dump_run", hosts[h].str() + " -> " + r.t.str() + " out=" + std::to_string(r.out.size()));
+        o.count("fault.dump_option");
+        if (hung(r.t)) { o.note = "skipped:watchdog"; return; }
+        dumps.push_back(r);
+        std::string d = h ? cmpRuns(r, dumps[0], true, true) : "";
+        if (r.t.kind == sim::Trapped::CRASHED) d = "hexsim --dump " + r.t.str();
+        if (!d.empty()) o.violate("host_state_dependent", "--dump: " + d + " [host " + hosts[h].str() + " vs pristine, image " + v.progName + "]", "host_state_dependent:dump");
       }
     }
     if (o.violated) return;
